@@ -51,6 +51,8 @@ func c04Ops(wide bool) []c04Op {
 	ops = append(ops, c04Op{"copy(y=x)", "copy", "y", "x"}, c04Op{"copy(x=y)", "copy", "x", "y"},
 		c04Op{"print(x++)", "step", "x", "inc"}, c04Op{"print(y--)", "step", "y", "dec"},
 		c04Op{"for(i=x;up)", "forfrom", "x", "inc"}, c04Op{"for(i=y;down)", "forfrom", "y", "dec"})
+	// a string grown from its own value (a copy taken earlier and the enclosing block's binding keep the old text)
+	ops = append(ops, c04Op{"grow(x)", "grow", "x", ""}, c04Op{"grow(y)", "grow", "y", ""})
 	// loops that never run a pass: what follows is their @else block, which is a block of the loop construct
 	ops = append(ops, c04Op{"each(v in [])@else", "eachelse", "v", ""}, c04Op{"for(i;never)@else", "forelse", "i", ""})
 	return ops
@@ -133,6 +135,8 @@ func c04Build(cs c04Case, maxDepth int) (tree []*Node, ok bool) {
 			emit(nAssign(op.v, c04Value(op.typ, pos)))
 		case "copy":
 			emit(nAssign(op.v, eVar(op.typ)))
+		case "grow":
+			emit(nAssign(op.v, eBin("+", eVar(op.v), eLit(vStr("g")))))
 		case "step":
 			emit(nText("[" + op.v + op.typ + "="))
 			emit(nPrint(&Expr{Op: op.typ, Kids: []*Expr{eVar(op.v)}}))
@@ -272,7 +276,7 @@ func c04WritesCounter(cs c04Case) bool {
 			}
 			counters["i"] = true
 			counters[op.v] = true // the bound is read from this variable in every pass
-		case "assign", "copy":
+		case "assign", "copy", "grow":
 			if counters[op.v] {
 				return true
 			}
@@ -382,7 +386,7 @@ func c04Run(c *Ctx) {
 					switch ops[ix].kind {
 					case "read":
 						reads++
-					case "assign":
+					case "assign", "grow":
 						assigns++
 					case "if", "iffalse", "each", "for", "forbare", "forcond", "eachelse", "forelse":
 						blocks++
@@ -454,7 +458,7 @@ func init() {
 	p := &Property{
 		ID:    "C04",
 		Level: "exploration",
-		Rule: "bounded-exhaustive operation sequences: every well-nested sequence of <=k operations from {assign(x|y, int|str|nil), assign(loop), read(x), read(y), open @if(true), open @if(false), switch to @else, open @each with loop variable x|y|v over int|str elements, open @for with variable x|y|i, close} up to a nesting depth, times every data map that pre-binds x and y to nothing / an int / a string (plus maps with loop, nil and an array); the template prints a marker and the value at every read.  [as built: plus copy(y=x), copy(x=y), print(x++), print(y--), for(i=x;up), for(i=y;down) (values taken from other variables never write through), @each over an empty array / @for whose condition is false at entry with what follows standing in their @else block, a float data map, and a template-file leg: every sequence of <=2 ops rendered twice through Template.String next to a page binding the same names]" +
+		Rule: "bounded-exhaustive operation sequences: every well-nested sequence of <=k operations from {assign(x|y, int|str|nil), assign(loop), read(x), read(y), open @if(true), open @if(false), switch to @else, open @each with loop variable x|y|v over int|str elements, open @for with variable x|y|i, close} up to a nesting depth, times every data map that pre-binds x and y to nothing / an int / a string (plus maps with loop, nil and an array); the template prints a marker and the value at every read.  [as built: plus copy(y=x), copy(x=y), print(x++), print(y--), grow(x) / grow(y) = x = x + \"g\", for(i=x;up), for(i=y;down) (values taken from other variables never write through), @each over an empty array / @for whose condition is false at entry with what follows standing in their @else block, a float data map, and a template-file leg: every sequence of <=2 ops rendered twice through Template.String next to a page binding the same names]" +
 			"The reference keeps a stack of block scopes. Non-trivial: the sequence opens a block and reads or assigns inside/after it",
 		Bounds: func(tier string) map[string]any {
 			if tier == "thorough" {
